@@ -1,0 +1,48 @@
+"""jsonmembers.py
+
+Join the '"key": value' fragments which the json() methods of TLV containers produce.
+
+Copyright (c) 2009-2025 Exa Networks. All rights reserved.
+License: 3-clause BSD. (See the COPYRIGHT file)
+"""
+
+from __future__ import annotations
+
+from typing import Iterable
+
+
+def join_members(fragments: Iterable[str]) -> str:
+    """Return the fragments joined as the members of one JSON object (without the braces).
+
+    Each fragment is one member, '"key": value'.  A peer may send the same TLV more than once
+    (RFC 9012 allows several tunnels of one type; elsewhere it is an error we still report), and
+    joining the fragments as they came gave an object with the same key twice, which strict
+    parsers refuse and lenient ones resolve by dropping all values but the last.  The values of
+    a repeated key are grouped in an array instead.
+    """
+    order: list[str] = []
+    values: dict[str, list[str]] = {}
+    for fragment in fragments:
+        if not fragment:
+            continue
+        head, separator, value = fragment.partition('":')
+        if not separator or not head.lstrip().startswith('"'):
+            # not a single member: keep it as it is
+            order.append(fragment)
+            values[fragment] = []
+            continue
+        key = head.lstrip()[1:]
+        if key not in values:
+            order.append(key)
+            values[key] = []
+        values[key].append(value.strip())
+    members: list[str] = []
+    for key in order:
+        found = values[key]
+        if not found:
+            members.append(key)
+        elif len(found) == 1:
+            members.append('"{}": {}'.format(key, found[0]))
+        else:
+            members.append('"{}": [ {} ]'.format(key, ', '.join(found)))
+    return ', '.join(members)
